@@ -125,7 +125,8 @@ impl View2 {
         pos: Point2<f32>,
     ) -> bool {
         let next_center = h.center(pos);
-        let changed = next_center != self.center;
+        let changed =
+            next_center.map(f32::to_bits) != self.center.map(f32::to_bits);
         self.center = next_center;
         changed
     }
@@ -134,6 +135,7 @@ impl View2 {
     ///
     /// Returns `true` if the view has changed, `false` otherwise
     pub fn zoom(&mut self, amount: f32, pos: Option<Point2<f32>>) -> bool {
+        let before = (self.center.map(f32::to_bits), self.scale.to_bits());
         match pos {
             Some(before) => {
                 let pos_before = self.transform_point(&before);
@@ -145,7 +147,7 @@ impl View2 {
                 self.scale *= amount;
             }
         }
-        amount != 1.0
+        before != (self.center.map(f32::to_bits), self.scale.to_bits())
     }
 }
 
@@ -257,7 +259,8 @@ impl View3 {
         pos: Point3<f32>,
     ) -> bool {
         let next_center = h.center(pos);
-        let changed = next_center != self.center;
+        let changed =
+            next_center.map(f32::to_bits) != self.center.map(f32::to_bits);
         self.center = next_center;
         changed
     }
@@ -266,6 +269,7 @@ impl View3 {
     ///
     /// Returns `true` if the view has changed, `false` otherwise
     pub fn zoom(&mut self, amount: f32, pos: Option<Point3<f32>>) -> bool {
+        let before = (self.center.map(f32::to_bits), self.scale.to_bits());
         match pos {
             Some(before) => {
                 let pos_before = self.transform_point(&before);
@@ -277,7 +281,7 @@ impl View3 {
                 self.scale *= amount;
             }
         }
-        amount != 1.0
+        before != (self.center.map(f32::to_bits), self.scale.to_bits())
     }
 
     /// Begins a rotation operation, given a point in world space
